@@ -566,7 +566,37 @@ def r6_json(ctx, prog):
 
 def run(ctx):
     prog = ctx.mir("main")
-    return [r1_indexer(ctx, prog), r2_single_writer(ctx, prog), r3_traversal(ctx, prog), r4_subkey_push(ctx), r5_templates(ctx), r6_json(ctx, prog)]
+    from rules.common import skip_icu_gates
+    r7 = skip_icu_gates(ctx, "C11.R7", "the build helper parses like the macro: the SKIP_ICU_CFG flag only stands in for ICU features being enabled",
+                        "`the string table exported for lazy loading and the one baked into the generated code hold, at each index, exactly the [same] text`: both come from "
+                        "the same parser, the helper with SKIP_ICU_CFG set; a pass (plural merging, indexing) or a value treated differently under that flag "
+                        "orders or fills the exported table differently from the baked one")
+    from rules import exporteval, absint as _absint
+    r8 = Rule("C11.R8", "the export writes one valid JSON file per locale (and namespace), an empty table included, decoding to that locale's table",
+              "`the file written by the build helper is valid JSON that decodes to those same strings`, `their length equals the size the generated code expects`: "
+              "the client fetches `<locale>.json` for every locale and casts it to the expected length; a file left out or a string written differently breaks that locale", floor=1)
+    try:
+        exporteval.check(ctx, r8, "R8")
+    except _absint.Unknown as u:
+        r8.viol("R8:undecided", "the export cannot be interpreted on the current code (%s): not decided on this tree (fail closed)" % str(u)[:300])
+    # the client turns the fetched list into the fixed-size table the accessors index: a length that differs from the expected
+    # size must be rejected, never padded or truncated (MIR return summary and effects of StringArray::cast, py/mirsum.py)
+    import mirsum
+    r9 = Rule("C11.R9", "a fetched table is accepted only with exactly the expected length",
+              "`their length equals the size the generated code expects`: the accessors index the table without bounds they could recover from; a table "
+              "resized to fit renders empty or shifted text instead of failing", floor=1)
+    for cfgname in (["main"] if ctx.tier == "quick" else ["main", "hydrate"]):
+        pr = ctx.mir(cfgname)
+        for nme, bb in pr.bodies.items():
+            if re.search(r"^<\[std::boxed::Box<str>; SIZE\] as leptos_i18n::fetch_translations::StringArray>::cast$", nme):
+                eff = []
+                t = mirsum.summary(pr, bb, depth=1, args=[("cap", "strings")], effects=eff)
+                got = mirsum.fmt(t) if t is not None else "a branching computation"
+                if got == "Result::unwrap(TryInto::try_into(Vec::into_boxed_slice(strings)))" and not eff:
+                    r9.inst("StringArray::cast [cfg %s]" % cfgname, "the whole list converted with TryInto (fails unless the length is SIZE), the list untouched before")
+                else:
+                    r9.viol("R9:StringArray::cast", "the fetched list becomes `%s` after %s; expected the untouched list converted with TryInto::try_into(..).unwrap()" % (got, [mirsum.fmt(e) for e in eff] or "no other call"), file=bb.file, line=bb.line)
+    return [r1_indexer(ctx, prog), r2_single_writer(ctx, prog), r3_traversal(ctx, prog), r4_subkey_push(ctx), r5_templates(ctx), r6_json(ctx, prog), r7, r8, r9]
 
 
 MANIFEST_ENTRY = {
